@@ -490,7 +490,7 @@ def component_section(ctx, rng, kind, force=None, with_skiprows=False):
     f = lambda lo, hi: float(rng.uniform(lo, hi))
     lf = lambda lo, hi: float(10 ** rng.uniform(lo, hi))
     if kind == 'Temperature':
-        k = force or ['Isothermal', 'Guillot2010', 'NPoint', 'Rodgers2000', 'TemperatureFile'][rng.integers(0, 5)]
+        k = force or ['Isothermal', 'Guillot2010', 'NPoint', 'Rodgers2000', 'TemperatureFile', 'TemperatureArray'][rng.integers(0, 6)]
         if k == 'Isothermal':
             ent = [L.e_float(rng, 'T', f(100, 3000))]
         elif k == 'Guillot2010':
@@ -509,6 +509,15 @@ def component_section(ctx, rng, kind, force=None, with_skiprows=False):
         elif k == 'Rodgers2000':
             ent = [L.e_floatlist(rng, 'temperature_layers', rng.uniform(100, 3000, int(rng.integers(1, 9)))),
                    L.e_float(rng, 'correlation_length', f(0.1, 10))]
+        elif k == 'TemperatureArray':
+            m = int(rng.integers(2, 8))
+            ent = [L.e_bool(rng, 'reverse', rng.random() < 0.5)]
+            if rng.random() < 0.8:
+                # the pressure nodes belong to the temperatures: written together or not at all
+                pair = [L.e_floatlist(rng, 'tp_array', rng.uniform(100, 3000, m))]
+                if rng.random() < 0.5:
+                    pair.append(L.e_floatlist(rng, 'p_points', np.sort(10 ** rng.uniform(-2, 6, m))[::-1]))
+                return L.Section('Temperature', 'profile_type', L.rnd_case(rng, L.alias(rng, cl, k)), k, subset(rng, ent) + pair), 'Temperature'
         else:
             ncol = int(rng.integers(1, 4))
             tcol = int(rng.integers(0, ncol))
